@@ -59,11 +59,11 @@ def _cap(n):
     return max(cap, 2)   # (a one-element pointer array makes CBMC's symex crawl)
 
 
-def _one(prefix, n, snaps=2, faults=1, imm=0, env=1, nofree=0, ptr=1, level=1, tier="quick", timeout=600):
+def _one(prefix, n, snaps=2, faults=1, imm=0, env=1, nofree=0, ptr=1, level=1, exact=1, tier="quick", timeout=600):
     defs = {"VP_N": n, "VP_SNAPS": snaps, "VP_FAULTS": faults, "VP_IMM": imm, "VP_ENV": env,
-            "VP_VEC_CAP": _cap(n), "VP_NOFREE": nofree, "VP_LEVEL": level}
+            "VP_VEC_CAP": _cap(n), "VP_NOFREE": nofree, "VP_LEVEL": level, "VP_EXACT": exact}
     name = "%s.compaction-n%d-snaps%d-faults%d-imm%d-env%d-L%d%s%s" % (
-        prefix, n, snaps, faults, imm, env, level, "-nofree" if nofree else "", "" if ptr else "-noptr")
+        prefix, n, snaps, faults, imm, env, level, "-nofree" if nofree else "", ("" if ptr else "-noptr") + ("" if exact else "-foldonly"))
     uw = {"memcpy.0": 10, "memcmp.0": 2, "ldb_remove_obsolete_files.0": 1, "ldb_remove_obsolete_files.1": 1,
           "ldb_do_compaction_work.0": n + 1, "ldb_do_compaction_work.1": 2, "ldb_do_compaction_work.2": 3,
           "ldb_do_compaction_work.3": n + 1, "ldb_install_compaction_results.0": n + 1,
@@ -86,7 +86,7 @@ def _one(prefix, n, snaps=2, faults=1, imm=0, env=1, nofree=0, ptr=1, level=1, t
                desc=DESC, bounds=bounds)
 
 
-# (n, snaps, faults, imm, env, nofree, ptr, level, tier)
+# (n, snaps, faults, imm, env, nofree, ptr, level, tier[, exact])
 CONFIGS = (
     (0, 1, 1, 0, 1, 0, 1, 0, "quick"),
     (1, 2, 1, 0, 1, 0, 1, 5, "quick"),
@@ -95,20 +95,24 @@ CONFIGS = (
     (3, 2, 0, 0, 1, 0, 1, 3, "quick"),
     (3, 2, 1, 0, 1, 1, 0, 0, "quick"),
     (4, 2, 0, 0, 1, 1, 0, 4, "quick"),
+    (3, 2, 0, 0, 1, 1, 0, 2, "quick", 0),
     (3, 2, 1, 0, 1, 0, 1, 1, "thorough"),
     (3, 2, 1, 1, 1, 1, 0, 1, "thorough"),
     (4, 2, 0, 0, 1, 0, 1, 2, "thorough"),
     (4, 2, 1, 0, 1, 1, 0, 1, "thorough"),
     (5, 2, 0, 0, 1, 1, 0, 1, "thorough"),
+    (4, 2, 0, 0, 1, 1, 0, 3, "thorough", 0),
 )
 
 
 def compaction_obls(prefix, want=None, tiers=("quick", "thorough")):
     out = []
-    for (n, snaps, faults, imm, env, nofree, ptr, level, tier) in CONFIGS:
+    for cfg in CONFIGS:
+        (n, snaps, faults, imm, env, nofree, ptr, level, tier) = cfg[:9]
+        exact = cfg[9] if len(cfg) > 9 else 1
         if tier not in tiers:
             continue
-        o = _one(prefix, n, snaps=snaps, faults=faults, imm=imm, env=env, nofree=nofree, ptr=ptr, level=level,
+        o = _one(prefix, n, snaps=snaps, faults=faults, imm=imm, env=env, nofree=nofree, ptr=ptr, level=level, exact=exact,
                  tier=tier, timeout=600 if tier == "quick" else 1800)
         if want is not None and not re.search(want, o.name):
             continue
